@@ -24,7 +24,7 @@ SIM_LIST = sorted(simcases.SIMS)
 
 
 def plan(tier):
-    n = 500 if tier == "quick" else 40000
+    n = 4000 if tier == "quick" else 150000
     return [(s, n) for s in SIM_LIST]
 
 
